@@ -57,3 +57,49 @@ func TestCondAndChannelShims(t *testing.T) {
 		}
 	}
 }
+
+// Several waiters queue on one Cond at the same time; Signal and Broadcast wake
+// them in turn.  Under -race this also proves that the shim's own bookkeeping is
+// invisible to the race detector (no maps, no copy builtin).
+func TestCondManyWaiters(t *testing.T) {
+	for seed := uint64(1); seed <= 60; seed++ {
+		var m sync.Mutex
+		c := sync.NewCond(&m)
+		ready := 0
+		woken := 0
+		waiter := func() {
+			Yield(21)
+			Lock(m.TryLock, m.Lock)
+			for ready == 0 {
+				Yield(22)
+				CondWait(c)
+			}
+			ready--
+			woken++
+			m.Unlock()
+		}
+		waker := func() {
+			for i := 0; i < 3; i++ {
+				Yield(23)
+				Lock(m.TryLock, m.Lock)
+				ready++
+				Yield(24)
+				m.Unlock()
+				// signalling without holding the lock is allowed; it also means that
+				// nothing but the shim itself orders two signallers
+				if i%2 == 0 {
+					CondSignal(c)
+				} else {
+					CondBroadcast(c)
+				}
+			}
+		}
+		pol := []int{PolicyNone, PolicyBernoulli, PolicyPCT}[seed%3]
+		cfg := Config{Policy: pol, PThresh: ^uint64(0) / 3, SchedSeed: seed, Prio: []int{1, 2, 3, 4, 5, 7, 0, 6}, PCTPoints: []uint64{3, 9, 20}}
+		// two tasks signal: the shim's waiter queue is written by different goroutines
+		res := Run(cfg, []func(){waker, waiter, waiter, waiter, waiter, waiter, waker, waiter})
+		if woken != 6 || res.Deadlock {
+			t.Fatalf("seed %d: woken %d deadlock %v", seed, woken, res.Deadlock)
+		}
+	}
+}
